@@ -24,6 +24,15 @@ type vfAdvClass struct {
 	build func(w *vfWorld, to int, il bool) []byte
 }
 
+// vfUnknownLen: a packet with the right tag whose only chunk has an unrecognised type and the given declared length
+// (8 bytes are really there), followed by nothing.
+func vfUnknownLen(w *vfWorld, to int, typ int, declared int) []byte {
+	b := w.vfForge(to, vfEncChunk(typ, 0, []byte{1, 2, 3, 4}))
+	binary.BigEndian.PutUint16(b[14:], uint16(declared))
+	vfSetCRC(b)
+	return b
+}
+
 func vfAdvClasses() []vfAdvClass {
 	live := func(w *vfWorld, to int) (cumAck, nextTSN, rcum uint32, W uint32) {
 		a := w.ep[to].a
@@ -147,6 +156,18 @@ func vfAdvClasses() []vfAdvClass {
 		{"unknown-chunk-report-bit", func(w *vfWorld, to int, il bool) []byte {
 			return w.vfForge(to, vfEncChunk(0xFE, 0, []byte{1, 2, 3, 4}))
 		}},
+		// unrecognised chunk types of all four "action" classes (upper two bits: stop / stop+report / skip / skip+report)
+		// whose declared length is impossible: a decoder that skips unknown chunks by their length must not trust it
+		{"unknown-00-len0", func(w *vfWorld, to int, il bool) []byte { return vfUnknownLen(w, to, 0x3F, 0) }},
+		{"unknown-00-len3", func(w *vfWorld, to int, il bool) []byte { return vfUnknownLen(w, to, 0x3F, 3) }},
+		{"unknown-01-len0", func(w *vfWorld, to int, il bool) []byte { return vfUnknownLen(w, to, 0x7E, 0) }},
+		{"unknown-01-len3", func(w *vfWorld, to int, il bool) []byte { return vfUnknownLen(w, to, 0x7E, 3) }},
+		{"unknown-10-len0", func(w *vfWorld, to int, il bool) []byte { return vfUnknownLen(w, to, 0x84, 0) }},
+		{"unknown-10-len3", func(w *vfWorld, to int, il bool) []byte { return vfUnknownLen(w, to, 0x84, 3) }},
+		{"unknown-10-beyond", func(w *vfWorld, to int, il bool) []byte { return vfUnknownLen(w, to, 0x84, 400) }},
+		{"unknown-11-len0", func(w *vfWorld, to int, il bool) []byte { return vfUnknownLen(w, to, 0xC1, 0) }},
+		{"unknown-11-len3", func(w *vfWorld, to int, il bool) []byte { return vfUnknownLen(w, to, 0xC1, 3) }},
+		{"unknown-11-beyond", func(w *vfWorld, to int, il bool) []byte { return vfUnknownLen(w, to, 0xC1, 400) }},
 		{"stale-init", func(w *vfWorld, to int, il bool) []byte {
 			v := append(vfU32(0x12345678, 200000), 0, 10, 0, 10)
 			v = append(v, vfU32(777)...)
